@@ -109,14 +109,18 @@ E_MacrostepEnd ==
 
 Quiescent == Running /\ "SPONT" \notin flags /\ m.iq = <<>> /\ "STABLE" \in flags
 
-\* dequeue an external event
+\* dequeue an external event; the empty event enqueued by cancel() only unblocks
 G_External == Quiescent /\ m.eq # <<>>
 E_External ==
     LET e  == Head(m.eq)
         M1 == [M0 EXCEPT !.eq = Tail(@),
                          !.atoms = <<Atom("deq", e.name, 1)>>]
         r  == SelectTransitions(C, M1, OnEvent(e.name))
-    IN  IF r.T # <<>>
+    IN  IF e.name = <<>>
+        THEN IF "CANCELLED" \in flags
+             THEN Result("running", flags \cup {"TOPFINAL"}, [M0 EXCEPT !.eq = Tail(@)], "CANCELLED")
+             ELSE Result("running", flags, [M0 EXCEPT !.eq = Tail(@)], "IDLE")
+        ELSE IF r.T # <<>>
         THEN LET M2 == Microstep(C, r.M, r.T)
              IN  Result("running", AfterMicro(flags, M2), M2, "MICROSTEPPED")
         ELSE Result("running", flags \ {"STABLE"}, r.M, "MICROSTEPPED")
@@ -183,15 +187,16 @@ StepName ==
 (***************************************************************************)
 \* Interpreter::receive(): the queues exist once the interpreter was initialised
 EnvReceive(name) ==
-    /\ life \in {"initialized", "running"}
+    /\ life # "instantiated"
     /\ m' = [m EXCEPT !.eq = Append(@, Ev(name))]
     /\ UNCHANGED <<ci, life, flags, ret, rootEntries>>
 
 \* Interpreter::cancel(): mark, and wake a blocked step() with an empty event
 EnvCancel ==
-    /\ life \in {"initialized", "running"}
+    /\ life # "instantiated"
     /\ flags' = flags \cup {"CANCELLED"}
-    /\ UNCHANGED <<ci, life, m, ret, rootEntries>>
+    /\ m' = [m EXCEPT !.eq = Append(@, Ev(<<>>))]     \* the empty event that unblocks step()
+    /\ UNCHANGED <<ci, life, ret, rootEntries>>
 
 (***************************************************************************)
 (* Properties of the specification itself (checked by MC_Step) and of       *)
